@@ -2013,3 +2013,5 @@ pub mod verif_c03;
 pub mod verif_c06;
 #[cfg(feature = "verif-hooks")]
 pub mod verif_c02;
+#[cfg(feature = "verif-hooks")]
+pub mod verif_c04;
